@@ -308,17 +308,26 @@ func (w *WSpec) build(env *Env) *built {
 			panic("unknown proc kind " + ps.Kind)
 		}
 	}
-	for _, e := range w.Edges {
+	for ei, e := range w.Edges {
 		from, to := b.procs[e.From], b.procs[e.To]
 		if e.Param {
-			to.InParamPorts()[e.ToPort].From(from.OutParamPorts()[e.FromPort])
+			// both directions of wiring are public API: every other edge is connected from the out side
+			if ei%2 == 1 {
+				from.OutParamPorts()[e.FromPort].To(to.InParamPorts()[e.ToPort])
+			} else {
+				to.InParamPorts()[e.ToPort].From(from.OutParamPorts()[e.FromPort])
+			}
 		} else {
 			ip := to.InPorts()[e.ToPort]
 			op := from.OutPorts()[e.FromPort]
 			if ip == nil || op == nil {
 				panic(fmt.Sprintf("bad edge %+v", e))
 			}
-			ip.From(op)
+			if ei%2 == 1 {
+				op.To(ip)
+			} else {
+				ip.From(op)
+			}
 		}
 	}
 	for i := range w.Procs {
